@@ -207,6 +207,11 @@ PathToksX == PathToks \cup {"X", "B3", "A2"}
 AlphaPathX(n) == SetToSeq({Slider(p) : p \in TokSeqs(PathToksX, n) \ {<<>>}})
 AlphaPath(n)  == SetToSeq({Slider(p) : p \in TokSeqs(PathToks, n) \ {<<>>}})
 AlphaPathR(n) == SetToSeq({Slider(p) : p \in TokSeqs(PathToks \ {"empty", "C"}, n) \ {<<>>}})
+\* a perfect-curve segment that is NOT the first segment (its first vertex is not the origin)
+AlphaPSeg(z) == SetToSeq({Slider(<<t1, p1, "P", a, b, c>>) : t1 \in {"B", "L"}, p1 \in {"A", "Cn"}, a \in {"O", "A", "Bc", "Cn"},
+                                                               b \in {"O", "A", "Bc", "Cn"}, c \in {"O", "A", "Bc", "Cn"}})
+                \o SetToSeq({Slider(<<"P", a, b, "P", c, d, e>>) : a \in {"A", "Cn"}, b \in {"Bc", "Cn"}, c \in {"A", "Cn"},
+                                                                    d \in {"O", "Bc"}, e \in {"A", "Bc", "Cn"}})
 
 \* (f) C06: failing multi-segment paths followed by good sliders
 FailingPaths(n) == {p \in TokSeqs(PathToks \ {"C", "Bc"}, n) : p # <<>> /\ ~DecPath(p).ok /\ DecPathFull(p).partial # <<>>}
@@ -226,6 +231,7 @@ Alpha == CASE AlphaName = "typesquick" -> AlphaTypesQuick(0)
            [] AlphaName = "path"       -> AlphaPath(AlphaN)
            [] AlphaName = "pathr"      -> AlphaPathR(AlphaN)
            [] AlphaName = "residue"    -> AlphaResidue(AlphaN)
+           [] AlphaName = "pseg"       -> AlphaPSeg(0)
 
 ASSUME Emit => PrintT("ALPHA " \o ToJson(Alpha))
 
